@@ -765,8 +765,14 @@ PROPERTY = Property(
                rule="sampled (OS-scheduled) stress: 2k threads x 5 repetitions on one model with switch interval 1e-6; can only add violations"),
     ],
     rule="generated call sequences / job sets / schedules on a shared model, each compared bit for bit with the same call on a fresh model; "
-         "non-trivial per clause (per-call options used; option change between consecutive steps; >= 1 real preemption); distinct by SHA-1",
+         "non-trivial per clause (per-call options used; option change between consecutive steps; >= 1 real preemption); distinct by SHA-1. Histories include "
+         "earlier calls that did not complete normally (out-of-range values, a gamma callback that raises part-way, corrupt rating values, wrongly typed options, "
+         "malformed arguments); schedules include preemptions right after shared writes and a bound-1 sweep inside functions that touch process-wide state; "
+         "fresh child interpreters vary hash seed, call order and repetition, run cold-start interleavings followed by probe calls, and a long-running service "
+         "(recurring calls unchanged after 9 000 / 70 000 generated calls through one model)",
     assumptions=[
+        "what a call that raises does itself is not judged here (C13 owns rejected calls): only the valid calls that follow it",
+        "the long-running service reaches bounded tables of up to ~8 000 (quick) / ~66 000 (thorough) entries; larger capacities are out of its reach",
         "interleavings are controlled at source-line granularity (a quarter of the cases at bytecode granularity) with <= 6 preemptions and <= 4 threads",
         "valid calls only use each rating object in one slot (a rating object shared by two slots of one game is not generated)",
         "the free-running-threads clause is sampled, OS-scheduled and therefore only ever additional",
